@@ -23,3 +23,47 @@ package nodeutil
 //@   loop 2 invariant -1 <= rangeindex && rangeindex < len(candidateKey)
 //@   loop 2 invariant forall j int :: 0 <= j && j <= rangeindex ==> valOf(candidateKey[j]) == valOf(target[j])
 //@   ensures result2 == nil && result0 >= 0 ==> (forall j int :: 0 <= j && j < len(keyMeta) ==> valOf(candidateKey[j]) == valOf(target[j]))
+
+// ---- C15: JSON string encoding (writeString) --------------------------------------------------------------
+// The output buffer is abstracted to two counters; what is pinned down is WHAT each write emits for the byte (or
+// rune) at the current position, that nothing that needs escaping is ever copied verbatim, and that every pending
+// run of plain bytes is flushed before an escape and at the end.
+//@ ghost var jstrs int
+//@ ghost var jbytes int
+//@ extern bytes.(*Buffer).WriteByte(c byte) error
+//@   assigns jbytes
+//@   ensures jbytes == old(jbytes) + 1
+//@ extern bytes.(*Buffer).WriteString(s string) (int, error)
+//@   assigns jstrs
+//@   ensures jstrs == old(jstrs) + 1
+
+// bytes that may be copied as they are (the tables are imported from their initialisers)
+//@ macro asciiSafe(b byte, esc bool) bool = htmlSafeSet[b] || (!esc && safeSet[b])
+//@ macro hexDigit(n int) int = n < 10 ? 48 + n : 87 + n
+
+//@ func writeString(e *bytes.Buffer, s string, escapeHTML bool)
+//@   mode int
+//@   property C15 C13
+//@   requires e != nil
+//@   assigns jstrs, jbytes
+//@   loop 1 invariant 0 <= start && start <= i && i <= len(s) && jstrs >= old(jstrs)
+//@   loop 1 invariant forall k int :: start <= k && k < i && s[k] < 128 ==> asciiSafe(s[k], escapeHTML)
+//@   loop 1 decreases len(s) - i
+//@   callsite WriteByte#1: arg0 == '"' && jbytes == old(jbytes) && jstrs == old(jstrs)
+//@   callsite WriteString#1: arg0 === s[start:i]
+//@   callsite WriteByte#2: arg0 == '\\' && b == s[i] && !asciiSafe(b, escapeHTML) && jbytes == at(1, jbytes) && jstrs == at(1, jstrs) + (start < i ? 1 : 0)
+//@   callsite WriteByte#3: arg0 == b && (b == '\\' || b == '"')
+//@   callsite WriteByte#4: arg0 == 'n' && b == '\n'
+//@   callsite WriteByte#5: arg0 == 'r' && b == '\r'
+//@   callsite WriteByte#6: arg0 == 't' && b == '\t'
+//@   callsite WriteString#2: arg0 == "u00" && b != '\\' && b != '"' && b != '\n' && b != '\r' && b != '\t'
+//@   callsite WriteByte#7: arg0 == hexDigit(b / 16)
+//@   callsite WriteByte#8: arg0 == hexDigit(b % 16)
+//@   callsite WriteString#3: arg0 === s[start:i]
+//@   callsite WriteString#4: arg0 == "\\ufffd" && c == 65533 && size == 1 && jstrs == at(1, jstrs) + (start < i ? 1 : 0)
+//@   callsite WriteString#5: arg0 === s[start:i]
+//@   callsite WriteString#6: arg0 == "\\u202" && (c == 8232 || c == 8233) && jstrs == at(1, jstrs) + (start < i ? 1 : 0)
+//@   callsite WriteByte#9: arg0 == hexDigit(c % 16)
+//@   callsite WriteString#7: arg0 === s[start:] && i == len(s)
+//@   callsite WriteByte#10: arg0 == '"'
+//@   check [pendingFlushed] jstrs >= old(jstrs) + (start < len(s) ? 1 : 0)
